@@ -641,7 +641,8 @@ func (c *ctx) engineCase(a, b Schema, desc string, o engineOpts) {
 }
 
 // genToPlain: a generated column of a that is an ordinary column in b -- the rebuild copies the computed values,
-// which the engine model (rows hold stored columns only) does not evaluate: no populated model case for such pairs
+// which the engine model (rows hold stored columns only) does not evaluate -- or a column whose type differs:
+// no populated model case for such pairs
 func genToPlain(a, b Schema) bool {
 	for _, t := range a.Tables {
 		bt := b.table(t.Name)
@@ -649,7 +650,16 @@ func genToPlain(a, b Schema) bool {
 			continue
 		}
 		for _, c := range t.Cols {
-			if bc := bt.col(c.Name); c.Gen != nil && bc != nil && bc.Gen == nil {
+			bc := bt.col(c.Name)
+			if bc == nil {
+				continue
+			}
+			if c.Gen != nil && bc.Gen == nil {
+				return true
+			}
+			// a column that comes back under its name with another type (drop-col + add-col, not only mod-col-type):
+			// the copy converts the stored values by the new affinity, which the engine model does not do
+			if c.Type != bc.Type {
 				return true
 			}
 		}
